@@ -1,11 +1,14 @@
 """C02 – block writes: case generation."""
 import random
 from vf import Case
+from gen import constants
 from props.regcommon import TYPES, SIZE, BITS, checks, hexv, pat, BOUNDS, default_for, float_classes
 
 ID = "C02"
 DRIVER = "drv_regtable"
 HARNESS = "h_regtable"
+GEN = [constants.gen]
+TIE = ['Ufw.Tie.RegTable']
 RULE = ("small-scope table family: 1-3 areas (adjacent or separated by a hole; read-write, read-only flag, write-only flag, callback-backed, "
         "without write callback) holding u16/u32/u64/f32/f64 registers with every constraint kind placed at every alignment; EVERY "
         "(address, length) inside a window that covers all areas, holes and both edges; word patterns: all zero, all ones, the constraint "
